@@ -69,6 +69,8 @@ fn input_kinds() -> Vec<InputKind> {
         }
         v.push(InputKind { label: "success-xsd-imports-a-symlinked-sibling", files: f, start: s0.start.clone(), start_exists: true, should_succeed: true });
     }
+    // generation succeeds, but the output cannot be written to the end (file-size limit, as with a full disk)
+    v.push(InputKind { label: "output-device-refuses", files: to_files(&s0), start: s0.start.clone(), start_exists: true, should_succeed: false });
     v.push(InputKind { label: "missing-input", files: vec![("other.xsd".into(), to_files(&s1)[0].1.clone())], start: "a.xsd".into(), start_exists: false, should_succeed: false });
     {
         let mut f = to_files(&s1);
@@ -165,9 +167,18 @@ fn run_row(idx: usize, row: &Row, kind: &InputKind, expected: Option<&Vec<u8>>) 
     if let Some(p) = &pre_bytes {
         std::fs::write(&out_path, p).unwrap_or_else(|e| machinery(&format!("write: {e}")));
     }
-    let mut cmd = Command::new(CLI);
+    // the kind "output-device-refuses" runs the tool under a file-size limit of 4 KiB (ulimit -f 8), so
+    // that writing the (much larger) output fails after a few blocks
+    let limited = kind.label == "output-device-refuses";
+    let mut cmd = if limited {
+        let mut c = Command::new("sh");
+        c.arg("-c").arg("ulimit -f 8; exec \"$0\" \"$@\"").arg(CLI);
+        c
+    } else {
+        Command::new(CLI)
+    };
     cmd.current_dir(&cwd).arg("--input").arg(&input_arg);
-    let mut cmdline = format!("cd {} && zeep --input {}", cwd.display(), input_arg);
+    let mut cmdline = format!("cd {} && {}zeep --input {}", cwd.display(), if limited { "ulimit -f 8; " } else { "" }, input_arg);
     if row.output_mode == "explicit" {
         // the explicit output path is given relative to cwd for the relative spellings
         let o = if row.spelling == "absolute" { out_path.to_string_lossy().to_string() } else { pathdiff(&cwd, &out_path) };
@@ -293,7 +304,7 @@ pub fn check(tier: &str) -> i32 {
     }
     rep.set("evaluations", json!(rows.len()));
     rep.set("distinct_nontrivial", json!(distinct.len()));
-    rep.set("rule", json!("complete product: 16 input outcomes (9 succeed, one importing a sibling that is a symlink to a file in another directory, one next to sibling *.xsd entries that are a dangling symlink, a symlink to a directory and a symlink to the start file, one of them with an import cycle through the start file, three with file-name forms: no extension, two dots, leading dot; the input directory's name contains a dot; 7 fail at successive stages: missing input, non-UTF-8 sibling, malformed XML, unresolved import, unresolved reference, a part that refers to a global attribute, unsupported binding) x 5 path spellings x {--output, default .rs path} x pre-existing output {absent, shorter, longer with sentinel tail, the expected output followed by a sentinel tail, the first two thirds of the expected output}; every row is one process run of the real zeep binary in a scratch directory; all rows are distinct and non-trivial"));
+    rep.set("rule", json!("complete product: 17 input outcomes (one of the failures being an output that cannot be written to the end: the tool runs under a 4 KiB file-size limit; 9 succeed, one importing a sibling that is a symlink to a file in another directory, one next to sibling *.xsd entries that are a dangling symlink, a symlink to a directory and a symlink to the start file, one of them with an import cycle through the start file, three with file-name forms: no extension, two dots, leading dot; the input directory's name contains a dot; 7 fail at successive stages: missing input, non-UTF-8 sibling, malformed XML, unresolved import, unresolved reference, a part that refers to a global attribute, unsupported binding) x 5 path spellings x {--output, default .rs path} x pre-existing output {absent, shorter, longer with sentinel tail, the expected output followed by a sentinel tail, the first two thirds of the expected output}; every row is one process run of the real zeep binary in a scratch directory; all rows are distinct and non-trivial"));
     rep.set("exhaustive", json!(true));
     rep.assume("the zeep binary is rebuilt from /repo/zeep by the check script before the run");
     rep.assume("success rows are compared with the library output computed in-process from the same file contents");
